@@ -782,6 +782,115 @@ def expand_macro(src, macro_item, arg):
     return re.sub(r"\$" + var + r"\b", arg, body)
 
 
+def annotate_closure(src, ed, fn, param_tokens, entry):
+    """R10 / injection point 5: give a closure of `fn` a Verus specification.
+       |p| body   ==>   |p: T| -> (r: R) requires.. ensures.. { body }
+    The closure is located by the exact token sequence of its parameter list (must occur once in the
+    function body); its body text is unchanged (braces are added around a brace-less body)."""
+    lo, hi = fn.body
+    L = len(param_tokens)
+    hits = [i for i in range(lo, hi - L) if all(src.toks[i + k].text == param_tokens[k] for k in range(L))]
+    if len(hits) != 1:
+        raise Drift("fn %s: closure `%s` found %d times (expected once)" % (fn.key, " ".join(param_tokens), len(hits)))
+    i = hits[0]
+    body_lo = i + L
+    if src.is_(body_lo, "{"):
+        body_hi = src.match[body_lo] + 1
+        braced = True
+    else:
+        braced = False
+        j = body_lo
+        while True:
+            t = src.toks[j]
+            if t.text in CLOSE or t.text in (",", ";"):
+                break
+            if t.text in OPEN:
+                j = src.match[j]
+            j += 1
+        body_hi = j
+    head = "%s -> (%s)\n%s\n" % (entry.get("params").strip(), entry.get("ret").strip(), entry.get("spec").rstrip("\n"))
+    ed.replace(src.toks[i].start, src.toks[i + L - 1].end, head + ("" if braced else "{ "), "R10",
+               "closure annotated with parameter types and a contract; body text unchanged")
+    if not braced:
+        ed.insert(src.toks[body_hi - 1].end, " }", "R10", "closing brace of the annotated closure body")
+
+
+def stmt_anchor(src, fn, where, kind, name, ordinal):
+    """Injection point 6: a statement of `fn` located structurally.
+       kind = "let": the n-th `let <name>` / `let mut <name>` statement;
+       kind = "call": the statement containing the n-th call `name(` (free function or method);
+       kind = "kw": the statement starting with / containing the n-th keyword `name` (e.g. return).
+    Returns the byte offset before the statement (where == "before") or after its terminating `;`."""
+    lo, hi = fn.body
+    hits = []
+    for i in range(lo + 1, hi):
+        t = src.toks[i]
+        if kind == "let" and t.kind == "ident" and t.text == "let":
+            j = i + 1
+            if src.is_(j, "mut", "ident"):
+                j += 1
+            if src.is_(j, name, "ident"):
+                hits.append(i)
+        elif kind == "call" and t.kind == "ident" and t.text == name and src.is_(i + 1, "(") \
+                and not src.is_(i - 1, "fn", "ident"):
+            hits.append(i)
+        elif kind == "kw" and t.kind == "ident" and t.text == name:
+            hits.append(i)
+    if ordinal < 1 or ordinal > len(hits):
+        raise Drift("fn %s: %s `%s` #%d not found (%d candidates)" % (fn.key, kind, name, ordinal, len(hits)))
+    t = hits[ordinal - 1]
+    # innermost enclosing brace block
+    open_tok = None
+    i = t
+    while i > lo:
+        i -= 1
+        tk = src.toks[i]
+        if tk.text in CLOSE:
+            i = src.match[i]
+            continue
+        if tk.text == "{":
+            open_tok = i
+            break
+        if tk.text in ("(", "["):
+            # the anchor is inside a parenthesised expression: keep walking out
+            continue
+    if open_tok is None:
+        open_tok = lo
+    # statement start: after the last `;` / `}` / `{` at depth 0 between open_tok and t
+    start = open_tok + 1
+    i = open_tok + 1
+    while i < t:
+        tk = src.toks[i]
+        if tk.text in OPEN:
+            close = src.match[i]
+            if close >= t:
+                i += 1      # the anchor is inside this group (e.g. a match scrutinee); do not skip it
+                continue
+            i = close
+            if tk.text == "{" and not (src.is_(i + 1, "else", "ident") or src.is_(i + 1, ".") or src.is_(i + 1, "?")):
+                start = i + 1
+        elif tk.text == ";":
+            start = i + 1
+        i += 1
+    if where == "before":
+        return src.toks[start].start
+    # after: the terminating `;` at depth 0
+    i = t
+    while i < src.match[open_tok]:
+        tk = src.toks[i]
+        if tk.text in OPEN:
+            i = src.match[i]
+        elif tk.text == ";":
+            return tk.end
+        i += 1
+    raise Drift("fn %s: statement of %s `%s` #%d has no terminating `;`" % (fn.key, kind, name, ordinal))
+
+
+def inject_hint(src, ed, fn, where, kind, name, ordinal, entry):
+    pos = stmt_anchor(src, fn, where, kind, name, ordinal)
+    ed.insert(pos, "\n" + entry.get("body").rstrip("\n") + "\n", "inject-hint")
+
+
 if __name__ == "__main__":
     # debugging aid: list items and functions of a file
     p = sys.argv[1]
